@@ -269,9 +269,12 @@ impl ColumnType<'_> {
             ColumnType::Native(n) => n.type_size_for_vector(),
             ColumnType::Tuple(_) => None,
             ColumnType::Collection { .. } => None,
+            // A product that does not fit in `usize` (nested vectors with huge
+            // dimensions, e.g. in a custom type name received from the network) cannot
+            // be the size of any real value: such a type is not treated as fixed size.
             ColumnType::Vector { typ, dimensions } => typ
                 .type_size_for_vector()
-                .map(|size| size * usize::from(*dimensions)),
+                .and_then(|size| size.checked_mul(usize::from(*dimensions))),
             ColumnType::UserDefinedType { .. } => None,
         }
     }
